@@ -192,12 +192,25 @@ def run(ck, F, tier):
     ck.inst("L3", "dispatcher", arms_ok and nvar == 8, db.span, "one dispatcher arm per subcommand (%d variants), each calling the subcommand's own run()" % nvar)
 
     # ---- L4 ---------------------------------------------------------------------------------------
-    b, t, ret = trace_run(F, "encode", r"std::io::Write::write_all|std::io::Read::read_exact|encoder::Encoder::encode|simulation::puncturing::Puncturer::puncture|std::vec::from_elem")
+    b, t, ret = trace_run(F, "encode", r"std::io::Write::write_all|std::io::Read::\w+|encoder::Encoder::encode|simulation::puncturing::Puncturer::puncture|std::vec::from_elem")
     wr = [e for e in t.events if e.callee.endswith("write_all")]
     rd = [e for e in t.events if e.callee.endswith("read_exact")]
     enc = [e for e in t.events if e.callee.endswith("Encoder::encode")]
-    if len(wr) != 1 or len(rd) != 1 or len(enc) != 1:
+    partial = [e for e in t.events if re.fullmatch(r"std::io::Read::(read|read_buf|read_vectored|read_to_end|read_to_string)", e.callee)]
+    ck.inst("L4", "encode:whole-words-only", not partial, partial[0].site if partial else b.span,
+            "input words are obtained with read_exact only" if not partial else
+            "the input is read with %s: a short read (a trailing partial word, or a pipe delivering fewer bytes) is encoded as if it were a complete "
+            "information word" % partial[0].callee.rsplit("::", 1)[-1])
+    if not partial and (len(wr) != 1 or len(rd) != 1 or len(enc) != 1):
         raise AnalysisError("cli::encode::run: expected one read_exact, one encode and one write_all")
+    if not partial:
+        encode_framing_rules(ck, F, b, t, wr, rd, enc)
+
+    # ---- L5 ---------------------------------------------------------------------------------------
+    l5_l6(ck, F, tier)
+
+
+def encode_framing_rules(ck, F, b, t, wr, rd, enc):
     written = wr[0].args[1]
     CW = app("encoder::Encoder::encode", *enc[0].args)
     # the (possibly punctured) codeword value: any match value that has CW in its None arm
@@ -225,6 +238,9 @@ def run(ck, F, tier):
             "information words of k = num_cols - num_rows bytes are read with read_exact; the loop ends only on UnexpectedEof (a partial trailing "
             "word is dropped); one encode and one write per word [%s %s %s]" % (kbuf, eof, one_each))
 
+
+
+def l5_l6(ck, F, tier):
     # ---- L5 ---------------------------------------------------------------------------------------
     NOI = r"(?!cli::).*"
     for mod, reviewed in (("dvbs2", {}), ("ccsds", {}), ("ccsds_c2", {}), ("peg", {}), ("mackay_neal", {}), ("systematic", {}),
